@@ -1,10 +1,11 @@
 #!/venv/bin/python
-"""tools/confirm_seed.py <prop> <k> [src_dir]: confirm a sub-agent's mutant in the scratch worktree /tmp/wt_confirm:
+"""tools/confirm_seed.py <prop> <k> [src_dir [out_k]]: confirm a sub-agent's mutant in the scratch worktree /tmp/wt_confirm:
 patch applies to HEAD; demo exits 0 on the clean tree and 1 with the patch; the full suite still passes every test of
 BASELINE.json's stable_pass. On success copies patch/demo/notes to /verif/seeded/<prop>-<k>/ and writes meta.json."""
 import json, os, shutil, subprocess, sys, xml.etree.ElementTree as ET
 prop, k = sys.argv[1], sys.argv[2]
 src = sys.argv[3] if len(sys.argv) > 3 else "/tmp/mut_%s" % prop
+out_k = sys.argv[4] if len(sys.argv) > 4 else k
 WT = "/tmp/wt_confirm_%s" % prop
 def sh(cmd, **kw):
     return subprocess.run(cmd, shell=True, capture_output=True, text=True, **kw)
@@ -35,7 +36,7 @@ ok = res["demo_clean_exit"] == 0 and res["demo_mutant_exit"] == 1 and res["suite
 res["confirmed"] = ok
 print(json.dumps({x: res[x] for x in ("confirmed", "demo_clean_exit", "demo_mutant_exit", "suite_ok", "suite_missing")}))
 if ok:
-    d = "/verif/seeded/%s-%s" % (prop, k)
+    d = "/verif/seeded/%s-%s" % (prop, out_k)
     os.makedirs(d, exist_ok=True)
     shutil.copy(patch, d + "/patch.diff"); shutil.copy(demo, d + "/demo.py")
     notes = src + "/notes.md"
